@@ -266,6 +266,9 @@ def run(ctx: Ctx):
                 "started together or staggered, with unsolicited confirmations; callers cancelled at every stage followed by further requests; random mixes; distinct = distinct case")
     ctx.add_sample({"case": cases[5], "trace": traces[5]})
     ctx.validate_traces("Trace_SendPacket", traces, metas=cases, label="send_packet", sig=sig)
+    # the wire layouts of the structures this procedure exchanges with the NCP, pinned from the EZSP reference (spec/WireLayout.tla)
+    from . import wirelayout
+    wirelayout.check(ctx, ['EmberApsFrame'])
     ctx.exhaustive = False
     ctx.assumptions += ["zigpy.util.Requests shim (harness/bv/compat.py); simulated EZSP NCP (enqueue answers, messageSentHandler callbacks in the version's field order)",
                         "RETRY_DELAYS and APS_ACK_TIMEOUT are read from the tree (configuration); 'busy' statuses are the max-message-limit / network-busy / no-buffers "
